@@ -282,6 +282,7 @@ def generate(outpath, repo_src=None, contracts_dir=None):
     emit('#![feature(allocator_api)]\n#![allow(unused_imports, dead_code, unused_variables, unused_mut, unused_assignments, non_snake_case, unused_parens, unused_braces)]\n')
     emit('use vstd::prelude::*;\nverus! {\n')
     emit(prelude, {'kind': 'prelude'})
+    emit(open(os.path.join(contracts_dir, 'adapters.rs')).read(), {'kind': 'adapters'})
     emit('\npub mod vspec {\n#[allow(unused_imports)] use vstd::prelude::*;\n#[allow(unused_imports)] use crate::{ReadSpec, WriteSpec, BufReadSpec};\n')
     emit(spec_text, {'kind': 'spec'})
     emit('\n} // mod vspec\n')
